@@ -467,6 +467,22 @@ def r3_asserts(text, hits):
             break
         else:
             break
+    # panic!("fmt", args) -> panic!() : the message has no semantics; its arguments need Debug impls the prelude types lack
+    pos = 0
+    while True:
+        m = mask(text)
+        found = False
+        for s, o, c, name in _macro_calls(text, m, ['panic', 'unreachable']):
+            if s < pos:
+                continue
+            if text[o + 1:c].strip():
+                text = _sub(text, s, c + 1, name + '!()')
+                _count(hits, 'R3.panic_message_dropped')
+            pos = s + len(name) + 2
+            found = True
+            break
+        if not found:
+            break
     # assert!(cond, "fmt", args) / debug_assert!(cond, ...) -> assert!(cond)
     pos = 0
     while True:
